@@ -473,13 +473,14 @@ def enclosing_stmt(node):
 
 def walk_no_nested(node):
     """Walk a function body without descending into nested defs/classes/lambdas."""
-    stack = list(ast.iter_child_nodes(node))
+    # pre-order, source order
+    stack = list(ast.iter_child_nodes(node))[::-1]
     while stack:
         n = stack.pop()
         yield n
         if isinstance(n, (ast.FunctionDef, ast.AsyncFunctionDef, ast.ClassDef, ast.Lambda)):
             continue
-        stack.extend(ast.iter_child_nodes(n))
+        stack.extend(list(ast.iter_child_nodes(n))[::-1])
 
 
 def calls_in(node, nested=True):
